@@ -24,12 +24,13 @@ def Rect.normalize (r : Rect) : Rect :=
 
 namespace Freespace
 
-/-- the x-interval (clipped to the row) that obstacle `o` removes from `row`, if any -/
+/-- the x-interval (clipped to the row) that obstacle `o` removes from `row`, if any; `o` is read with
+min/max put in order on both axes -/
 def cut (row : Rect) (o : Rect) : Option (Int × Int) :=
-  let n := o.normalize
-  if n.minX < n.maxX && n.minY < n.maxY && n.minY < row.maxY && row.minY < n.maxY
-     && n.minX < row.maxX && row.minX < n.maxX then
-    some (max n.minX row.minX, min n.maxX row.maxX)
+  if min o.minX o.maxX < max o.minX o.maxX ∧ min o.minY o.maxY < max o.minY o.maxY ∧
+     min o.minY o.maxY < row.maxY ∧ row.minY < max o.minY o.maxY ∧
+     min o.minX o.maxX < row.maxX ∧ row.minX < max o.minX o.maxX then
+    some (max (min o.minX o.maxX) row.minX, min (max o.minX o.maxX) row.maxX)
   else none
 
 /-- insertion into a list of intervals sorted by lower end -/
@@ -47,7 +48,7 @@ def sweep (hi : Int) : Int → List (Int × Int) → List (Int × Int)
 
 /-- free x-intervals of the row -/
 def freeIntervals (row : Rect) (obstacles : List Rect) : List (Int × Int) :=
-  if row.minX ≠ row.maxX && row.minY < row.maxY then
+  if row.minX ≠ row.maxX ∧ row.minY < row.maxY then
     sweep (max row.minX row.maxX) (min row.minX row.maxX)
       (sortIvs (obstacles.filterMap (cut row.normalize)))
   else []
